@@ -38,3 +38,17 @@ package radixtree
 //@   ensures 0 <= ret0 && ret0 <= len(path)
 //@   ensures ret0 < len(path) ==> path[ret0] == 47
 //@   ensures !contains(substr(path, 0, ret0), "/")
+
+// C02 / C06: the backtracking flag of a node. While a node holds rules the flag is what the rules'
+// own setting made it (AddOption); a node without rules of its own never blocks the search for a
+// less specific expression: the flag is forced on only for nodes without values (addNode), and it
+// is switched on again when the last rule of a node is removed (delNode).
+//@ func (*Tree).addNode
+//@   props C02 C06
+//@   assert at store backtrackingEnabled#1: len(n.values) == 0
+//@   assert at store backtrackingEnabled#2: len(n.values) == 0
+//@   assert at store backtrackingEnabled#3: len(n.values) == 0
+
+//@ func (*Tree).delNode
+//@   props C02 C06
+//@   assert at return#2: len(n.values) == 0 ==> n.backtrackingEnabled
